@@ -17,12 +17,12 @@ import (
 )
 
 type c08FragCase struct {
-	Policy  int    `json:"policy"`   // bit i: destination i allowed
-	Opener  int    `json:"opener"`   // -1: fresh session, else a complete datagram to this destination first
-	A0      int    `json:"addr_frag0"`
-	A1      int    `json:"addr_frag1"`
-	Reverse bool   `json:"reverse"`  // fragment 1 arrives first
-	Count   int    `json:"count"`    // 2 or 3 fragments (the middle one repeats A0)
+	Policy  int  `json:"policy"` // bit i: destination i allowed
+	Opener  int  `json:"opener"` // -1: fresh session, else a complete datagram to this destination first
+	A0      int  `json:"addr_frag0"`
+	A1      int  `json:"addr_frag1"`
+	Reverse bool `json:"reverse"` // fragment 1 arrives first
+	Count   int  `json:"count"`   // 2 or 3 fragments (the middle one repeats A0)
 }
 
 func c08FragRun(c *c08FragCase) string {
